@@ -102,6 +102,24 @@ impl Engine for C16 {
         if (sub == "oligo" || sub == "kcgr") && k >= 6 {
             records.truncate(6);
         }
+        // rarely the opposite of degenerate, next to the degenerate records: 2-4 records
+        // of 0.8-1.6 Mbases for the record-oriented commands whose cost is per record
+        // (a minimiser listing with a short window is then a row of many megabytes)
+        let mega = matches!(sub, "oligo" | "kcgr" | "min") && rng.chance(1, 5000);
+        if mega {
+            records.truncate(4);
+            for i in 0..rng.usize(2, 4) {
+                let len = rng.usize(800_000, 1_600_000);
+                let at = rng.usize(0, records.len());
+                records.insert(at, Rec { id: format!("big{i}"), desc: String::new(), seq: gen_seq(rng, len, Alpha::Clean) });
+            }
+        }
+        let (m, w) = if mega && sub == "min" && rng.chance(2, 3) {
+            let m = rng.usize(7, 12);
+            (m, m + rng.usize(1, 3))
+        } else {
+            (m, w)
+        };
         let stdin = (sub == "oligo" || sub == "cgr" || sub == "kcgr") && rng.chance(1, 3);
         let mut container = gen_container(rng, &records, false, !stdin);
         if stdin {
